@@ -421,7 +421,10 @@ func (x *Exec) initGhost(s *State, f *Frame, spec *FuncSpec) {
 	for _, g := range spec.Ghosts {
 		sortS := ghostSort(g.Type)
 		var v Value
-		if g.Init != nil {
+		if strings.HasPrefix(sortS, "slice:") {
+			es := sortS[len("slice:"):]
+			v = &SliceVal{Arr: ConstArray(SArr(SInt, es), zeroTerm(es)), Len: IntLit(0), Cap: IntLit(0)}
+		} else if g.Init != nil {
 			if id, ok := g.Init.(*astIdent); ok && id.Name == "any" {
 				v = S(x.Ctx.Fresh("ghost."+g.Name, sortS))
 			} else {
